@@ -80,6 +80,12 @@ def rules(ck, P):
         m = P.impl_method(i, "write_to_writer")
         if m is None:
             continue
+        # private helpers that take the writer and do not loop (e.g. a `commit_header(&header, writer)`) are inlined, so that a header write
+        # moved into a helper is still a top-level event of the entry; helpers with loops (write_blocks) stay calls and are followed
+        # by writer_events as before
+        def straight_writer_helper(cb, _ok=ir.same_impl_helper(m)):
+            return _ok(cb) and any("DataWriterTrait" in x for x in cb.get("in_t", ())) and not ir.contains(cb["body"], lambda y: y.get("k") in ("for", "while", "loop", "closure"))
+        m = ir.inline_helpers(P, m, straight_writer_helper, depth=1)
         ev = writer_events(P, m)
         if any(e["kind"] == "write_start" for e in ev) or len(ev) >= 2:
             entries.append((i, m, ev))
@@ -129,14 +135,30 @@ def rules(ck, P):
         ser = [y for y in ir.walk_nodes(arg) if y.get("k") == "mcall" and y.get("name") in ("to_blob", "serialize")]
         ser_stmt = si
         hdr_h = None
+        def root_local(h_):
+            """follow `let p = &x` / `let p = x.clone()` bindings (incl. parameter bindings of inlined helpers) to the original local"""
+            for _ in range(6):
+                init_ = lets.get(h_)
+                if init_ is None:
+                    return h_
+                e_ = ir.strip(init_)
+                while e_ is not None and (e_.get("k") in ("ref", "un") or (e_.get("k") == "mcall" and e_.get("name") in ("clone", "to_owned", "as_ref", "borrow") and not e_.get("a"))):
+                    e_ = ir.strip(e_["e"] if e_.get("k") in ("ref", "un") else e_["recv"])
+                if e_ is None or e_.get("k") != "path" or e_.get("r") != "local":
+                    return h_
+                h_ = e_["hid"]
+            return h_
         if not ser:
             h = ir.local_hid(arg)
             for i, s in enumerate(sts):
-                if s.get("k") == "let" and any(x["hid"] == h for x in ir.pat_binds(s["pat"])):
-                    ser_stmt = i
-                    ser = [y for y in ir.walk_nodes(s["init"]) if y.get("k") == "mcall" and y.get("name") in ("to_blob", "serialize")]
+                for y_ in ir.walk_nodes(s):
+                    if y_.get("k") == "let" and "init" in y_ and any(x["hid"] == h for x in ir.pat_binds(y_["pat"])):
+                        found_ = [y for y in ir.walk_nodes(y_["init"]) if y.get("k") == "mcall" and y.get("name") in ("to_blob", "serialize")]
+                        if found_:
+                            ser_stmt = i
+                            ser = found_
         if ser:
-            hdr_h = ir.local_hid(ser[0]["recv"])
+            hdr_h = root_local(ir.local_hid(ser[0]["recv"]))
         assigns = [(i, ir.place_str(y["l"])) for i, s in enumerate(sts) for y in ir.walk_nodes(s) if y.get("k") == "assign" and hdr_h is not None and _root(y["l"]) == hdr_h]
         okd = bool(ser) and hdr_h is not None and bool(assigns) and all(i < ser_stmt for i, _ in assigns)
         ck.check(okd, "R-COMMIT-ORDER", short + "|d-header-complete", "all %d header field assignments precede the serialisation passed to write_start" % len(assigns),
@@ -149,7 +171,7 @@ def rules(ck, P):
             fser_stmt = None
             h = ir.local_hid(farg)
             for i, s in enumerate(sts):
-                if s.get("k") == "let" and any(x["hid"] == h for x in ir.pat_binds(s["pat"])) and ir.contains(s.get("init", {}), lambda y: y.get("k") == "mcall" and y.get("name") in ("to_blob", "serialize") and ir.local_hid(y["recv"]) == hdr_h):
+                if s.get("k") == "let" and any(x["hid"] == h for x in ir.pat_binds(s["pat"])) and ir.contains(s.get("init", {}), lambda y: y.get("k") == "mcall" and y.get("name") in ("to_blob", "serialize") and root_local(ir.local_hid(y["recv"])) == hdr_h):
                     fser_stmt = i
             range_assigns = [i for i, p in assigns if p.endswith(("meta_range", "blocks_range"))]
             oke = fser_stmt is not None and bool(range_assigns) and all(i > fser_stmt for i in range_assigns) and first["ctx"] == ("top",)
